@@ -140,6 +140,7 @@ fn main() {
             }
             if a.get("big-valid").is_some() {
                 d_xz::big_valid(&prop, &mut rep);
+                d_xz::varint_boundaries(&prop, &mut rep);
             }
             let nf = a.num("flip-files", 0) as usize;
             if nf > 0 {
